@@ -246,6 +246,28 @@ func vf6Snapshot(p *core.Prog, rep *core.Report) {
 			}
 			walk(sz)
 		}
+		if bad == "" {
+			// VF6b: values are read through the position captured in the snapshot, never through a fresh lookup
+			idxGet := p.Reaches("index.get", func(site ssa.CallInstruction) bool {
+				c := site.Common().StaticCallee()
+				return c != nil && core.RecvNamed(c) == p.R.ShardedIndex && c.Name() == "Get"
+			})
+			for _, b := range fn.Blocks {
+				for _, in := range b.Instrs {
+					ci, ok := in.(ssa.CallInstruction)
+					if !ok {
+						continue
+					}
+					c := ci.Common().StaticCallee()
+					if c == nil || !p.InLib(c) {
+						continue
+					}
+					if (core.RecvNamed(c) == p.R.ShardedIndex && c.Name() == "Get") || idxGet[c] {
+						bad = "the live index is consulted through " + core.CalleeName(ci.Common()) + " at " + p.InstrPos(in) + " while enumerating a snapshot: keys come from the snapshot but values from the live state (a concurrent delete aborts the enumeration, an overwrite shows the new value)"
+					}
+				}
+			}
+		}
 		rep.Check(bad == "", "VF6", key, "result is built from the snapshot only", p.Pos(fn.Pos()), bad, true)
 	}
 	if n < 3 {
